@@ -84,7 +84,7 @@ func sourceFromCRILabels(hosts source.RegistryHosts) source.GetSources {
 				}
 				if d.String() != target.String() {
 					desc := ocispec.Descriptor{Digest: d}
-					if urls, ok := labels[targetImageURLsLabelPrefix+fmt.Sprintf("%d", i)]; ok {
+					if urls, ok := labels[targetImageURLsLabelPrefix+fmt.Sprintf("%d", i)]; ok && urls != "" {
 						desc.URLs = strings.Split(urls, ",")
 					}
 					neighboringLayers = append(neighboringLayers, desc)
@@ -96,7 +96,7 @@ func sourceFromCRILabels(hosts source.RegistryHosts) source.GetSources {
 			Digest:      target,
 			Annotations: labels,
 		}
-		if targetURLs, ok := labels[targetURLsLabel]; ok {
+		if targetURLs, ok := labels[targetURLsLabel]; ok && targetURLs != "" {
 			targetDesc.URLs = append(targetDesc.URLs, strings.Split(targetURLs, ",")...)
 		}
 
